@@ -238,6 +238,10 @@ for _k, _v in ADDENDA.items():
 for _k, _v in ADDENDA2.items():
     CHECKS[_k]["text"] += " " + _v
 
+ADDENDA3 = {'C01': 'The default filters are exactly what initDefaultFilters returned (none dropped for a look-alike custom filter).', 'C02': 'The default filters are exactly what initDefaultFilters returned.', 'C04': 'A field the info-override pass copies onto the finished font is computed from glyph data only under a has-glyph-data guard (sibling agreement InfoCompiler / base builders).', 'C05': 'No memo keyed by a part of the arguments.', 'C18': 'compileGSUB only ever returns the GSUB feaLib built from the whole feature file (or that table, cached).', 'C20': 'Known scripts come only from single-script code points and declared language systems.'}
+for _k, _v in ADDENDA3.items():
+    CHECKS[_k]["text"] += " " + _v
+
 _TODO = "check not built yet in this session (static rules designed in DESIGN.md §5; will be claimed when the rule set is armed)"
 NOT_APPLICABLE = {}
 for _p in ["C01", "C02", "C04", "C05", "C06", "C07", "C08", "C09", "C10", "C11", "C12", "C13", "C14", "C15", "C16", "C17", "C18", "C19", "C20"]:
